@@ -27,7 +27,18 @@ RULE = ("(a) every recipient string over {u,a,A,@,%%,.} up to length %s under th
         "Nq.Rewrite.accept|acceptAll and judged by Nq.Route.specJudge|specStep|specTrace - the two sides of theorem C10_trace - with info, local and remote compared with "
         "specTodo; (i) delivery leg (seeded, own stream): nscen/16 messages through the real daemon with both spawners announcing concurrency 10 - the harness plays qmail-clean, "
         "qmail-lspawn and qmail-rspawn - and every delivery command written by del_start/comm_write/comm_do (file name, sender after VERP expansion, recipient) is compared "
-        "per channel and in order with the documented routing of the T records and the documented VERP rule")
+        "per channel and in order with the documented routing of the T records and the documented VERP rule; (j) SIGHUP-during-re-read leg (seeded, own stream): nscen/16 "
+        "real-daemon scenarios, each a sweep of pairs (I k; M) for k = 0, 1, 2, ... up to the last call: control files f1 are written and SIGHUP (A) delivered in select(); the daemon is "
+        "held right before its k-th call (chdir / open_read / read / close of reread(), regetcontrols(), control_readfile(): pass-through gates around the #included sources) while f2 "
+        "(a domain newly listed in locals, a new virtualdomains entry of any kind, both, or regenerated files; every file replaced by rename) is written and a second real SIGHUP (B) "
+        "is sent through the daemon's own handler; once it is idle the trigger is pulled with nothing queued (loop top), then a message probing every pool domain is preprocessed: "
+        "the files as of the LAST HUP must be in force (events edit g, hup, top, edit f2, hup, top with g = per file the version on disk when re-read (A) opened it); "
+        "(k) many-recipient leg (seeded, own stream): nscen/8 real-daemon scenarios with 2-4 messages whose record bytes per channel file are swept over 0.5x..3x (now and then 6x) of "
+        "todo_do's 1024-byte channel buffers in every mix of local / virtual / remote order (alternating, blocks of records, blocks of bytes, one remote among many local and vice "
+        "versa at the first/middle/last/random position, random mixes in any proportion), short / medium / long / mixed address lengths, records ending exactly at, one short of and "
+        "one past a multiple of the buffer size, records longer than a buffer, long senders (info/<id> buffer), serial-numbered recipients, before and after a HUP; the bytes of the real "
+        "info/ local/ remote/<id> files are judged by specTodo (each recipient exactly once, in input order, in the channel the documents prescribe). A daemon that dies (sanitizer "
+        "report) ends its scenario, is reported as a harness error, and the remaining scenarios still run")
 
 FIXED_G = "G 610a 752e610a 610a412e750a 610a752e610a750a 7540753a740a753a760a2e753a770a2e612e753a0a7540752e753a0a"
 ALPHA = b"ua@%.AbB:"
@@ -110,7 +121,7 @@ run_standard("C10", "Nq.Props.C10", "drv_c10", "harness/c10_route.c", "qmail-sen
              ["control.o", "constmap.o", "auto_qmail.o"],
              "6 1500 320", "8 100000 8000",
              {"quick": RULE % (6, 1500, 320), "thorough": RULE % (8, 100000, 8000)},
-             "Nq.Rewrite (cmInit/CM.lookup, getcontrols/reget, rewriteWith, senderadd, commWrite, todoDo, accept/acceptAll over edit|hup|top|msg events) vs control.c, "
+             "Nq.Rewrite (cmInit/CM.lookup, getcontrols/reget, rewriteWith, senderadd, commWrite, todoDo, accept/acceptAll over edit|hup|top|msg events, SIGHUP during the re-read included) vs control.c, "
              "constmap.c, qmail-send.c getcontrols/regetcontrols/rewrite/senderadd/comm_write/del_start/todo_do/sighup/main loop",
              mutate=mutate,
              assumptions=[
@@ -118,6 +129,6 @@ run_standard("C10", "Nq.Props.C10", "drv_c10", "harness/c10_route.c", "qmail-sen
                  "control files in which a virtualdomains key is listed twice are outside the property's domain: they are compared with the model (later entry wins) but not judged by the routing oracle (repeated keys in locals/percenthack are judged: membership needs no hypothesis)",
                  "I/O errors while reading control files and out-of-memory returns are not modelled",
                  "percent hack repeated: the documents are read as a rule on the (local part, domain) pair; when an extracted fqdn itself contains '@' the string-level reading would differ (counted as R_pct_readings_differ, theorem C10_pct_string)",
-                 "H3: qmail-send's main() runs as a real child process with spawn concurrency 0 (no deliveries; legs e/g/h) or 10 with the harness answering every delivery with success (leg i); the harness plays qmail-clean; a SIGHUP is sent only while the daemon is blocked in select() and the step ends when it is seen blocked in select() again, i.e. the observed events are hup then loop top (a signal landing between the flag test and select() is the known select race: theorem C10_hup_race says what the code does then, not exercised)",
+                 "H3: qmail-send's main() runs as a real child process with spawn concurrency 0 (no deliveries; legs e/g/h) or 10 with the harness answering every delivery with success (leg i); the harness plays qmail-clean; in H steps a SIGHUP is sent only while the daemon is blocked in select() and the step ends when it is seen blocked in select() again, i.e. the observed events are hup then loop top; in I steps the second SIGHUP arrives while the daemon is inside reread() (held at a chosen call by a pass-through gate compiled around control.c/qmail-send.c: chdir, open_read, read, close keep their arguments and results), and because the stock loop only looks at the flag at its top and select() does not return for a signal that arrived before it (the known select race, theorem C10_hup_race), the harness pulls the trigger once with an empty todo/ before the next message so that the loop has passed its top; the control files of an I step are replaced by rename, so the overlapped re-read sees each file as it was when it opened it",
                  "a message todo_do refuses is recognised by the daemon going back to sleep in select() without having asked qmail-clean to remove todo/<id> (process state and syscall read from /proc)",
                  "LP64: constmap_hash is a 64-bit unsigned long"])
